@@ -199,6 +199,12 @@ class Gen:
                 self.features.add("imported")
                 call = r.choice(["answer()", "make_pair(1)", "pick(cb)", "Box().get()"])
                 self.emit(ind, f"reveal_type(c10lib.{call})")
+        elif k == 10 and r.random() < 0.3:
+            self.features.add("format")
+            keys = r.sample(NAMES, r.randrange(2, 6))
+            given = r.sample(keys, r.randrange(0, len(keys)))
+            tmpl = " ".join(f"%({k})s" for k in keys)
+            self.emit(ind, f"print({tmpl!r} % {{{', '.join(repr(k) + ': 1' for k in given)}}})")
         elif k == 10:
             self.features.add("attr")
             v = r.choice(vars_)
